@@ -440,6 +440,7 @@ pub struct Report {
     pub rule: String,
     pub assumptions: Vec<String>,
     pub extra: BTreeMap<String, Value>,
+    pub quiet: bool,
 }
 
 impl Report {
@@ -457,6 +458,7 @@ impl Report {
             rule: String::new(),
             assumptions: vec![],
             extra: BTreeMap::new(),
+            quiet: false,
         }
     }
     /// record a completed stage (a finite space enumerated completely)
@@ -468,7 +470,9 @@ impl Report {
             "complete": true,
             "wall_s": (t0.elapsed().as_secs_f64() * 100.0).round() / 100.0,
         }));
-        eprintln!("[{}] stage {} : {} items in {:.1}s", self.prop, name, size, t0.elapsed().as_secs_f64());
+        if !self.quiet {
+            eprintln!("[{}] stage {} : {} items in {:.1}s", self.prop, name, size, t0.elapsed().as_secs_f64());
+        }
     }
 }
 
